@@ -23,7 +23,7 @@ chunk index (unit)
 
 ranged pipeline (system)
 * `rw.reset maxChunkSize` · `rw.write ts:msgLen:fldLen[*N],…` → OnWrite calls, start/end, `CORRUPTED c,…`
-* `rw.writenoindex …` (journal only: the writer is parked before `onWriteCIndex`) · `rw.notify` (the parked notifications are delivered) · `rw.dropstale` (a reader's `dropStale` has removed the entries older than their chunk, its `lightFill` has not finished)
+* `rw.writenoindex …` (journal only: the writer is parked before `onWriteCIndex`) · `rw.notify` (the parked notifications are delivered) · `rw.forgetchunk c` (a reader's `syncChunks` with an older chunk list forgot chunk `c`) · `rw.dropstale` (a reader's `dropStale` has removed the entries older than their chunk, its `lightFill` has not finished)
 * `rw.rebuild <dense chunk id|all>` · `rw.autorebuild` (rebuild the chunks the last write reported corrupted) · `rw.hull` → `cid:cnt:min:max …` · `rw.points cid`
 * `r.windows lo hi` → `cid:minPos:maxPos:count …` of a fresh selector (bounds `none` = absent)
 * `r.scan lo hi page` → `got=<runs> spec=<runs> cls=<2,3,41,4,24> fix2=<0|1|-> fix3=<0|1|-> fix23=<0|1|-> fix41=<0|1|-> fixset=<smallest set of repairs {3,2,41} that restores the specification answer|->`
@@ -203,6 +203,14 @@ def step (d : DS) (toks : List String) : DS × String :=
         | some k => !((!Generated.C02.staleDropOnlyForSnapshotEntries || c.loaded) && k.cnt > c.recs)
         | none => true) }
     ({ d with rcidx := drop d.rcidx, rcidx2 := drop d.rcidx2, rcidx3 := drop d.rcidx3, rcidx4 := drop d.rcidx4 }, "ok")
+  | ["rw.forgetchunk", c] =>
+    -- a reader's `syncChunks` that was given a chunk list taken before chunk `c` existed has run its second critical
+    -- section: the entry of `c` (created by the writer in between) is treated as removed and forgotten with its tree
+    (match c.toNat? with
+     | some cid =>
+       let drop (ci : CIndex.St) : CIndex.St := { ci with chunks := ci.chunks.filter (fun ch => ch.id != cid) }
+       ({ d with rcidx := drop d.rcidx, rcidx2 := drop d.rcidx2, rcidx3 := drop d.rcidx3, rcidx4 := drop d.rcidx4, phLive := false }, "ok")
+     | none => (d, "bad-op"))
   | ["rw.notify"] =>
     -- the parked writer continues: its OnWrite notifications reach the chunk index now
     let app (ci : CIndex.St) : CIndex.St := d.pendingCalls.foldl (fun ci (call : Nat × Nat × Nat × Int × Int) =>
